@@ -16,7 +16,7 @@
 (* real backing slice and runs every applicable method on them.                *)
 EXTENDS Integers, FiniteSets, Sequences, TLC, Json
 
-CONSTANTS Family,   \* "mat" | "matdiff" | "vec"
+CONSTANTS Family,   \* "mat" | "matdiff" | "vec" | "sym" (diagonal blocks: SymDense.SliceSym, TriDense.SliceTri)
           R1, C1,   \* shape of the first parent matrix laid over the backing (vec: max n, max inc)
           R2, C2,   \* shape of the second parent (matdiff only)
           BackLen,  \* vec: length of the backing array
@@ -30,6 +30,8 @@ Abs(a) == IF a < 0 THEN -a ELSE a
 MatWindows(R, C) == {[off |-> i * C + j, r |-> k - i, c |-> l - j, st |-> C, i |-> i, k |-> k, j |-> j, l |-> l, R |-> R, C |-> C] :
                        i \in 0 .. R - 1, k \in 1 .. R, j \in 0 .. C - 1, l \in 1 .. C} 
 MatWin(R, C) == {w \in MatWindows(R, C) : w.k > w.i /\ w.l > w.j}
+\* diagonal blocks of an R x R parent: the windows SliceSym(i,k) / SliceTri(i,k) address
+DiagWin(R) == {w \in MatWin(R, R) : w.i = w.j /\ w.k = w.l}
 Cells(w) == {w.off + a * w.st + b : a \in 0 .. w.r - 1, b \in 0 .. w.c - 1}
 DataLen(w) == (w.r - 1) * w.st + w.c
 
@@ -106,6 +108,8 @@ Cases == CASE Family = "mat"     -> MatSelf \cup {MatCase(w1, w2) : w1 \in {w \i
                                                        w2 \in {w \in MatWin(R2, C2) : TRUE}}
                                     \cup {MatCase(w2, w1) : w1 \in {w \in MatWin(R1, C1) : InShard(w)},
                                                             w2 \in {w \in MatWin(R2, C2) : TRUE}}
+           [] Family = "sym"     -> {SelfCase(w, "self") : w \in {x \in DiagWin(R1) : InShard(x)}}
+                                    \cup {MatCase(w1, w2) : w1 \in {w \in DiagWin(R1) : InShard(w)}, w2 \in DiagWin(R1)}
            [] Family = "vec"     -> VecSelf \cup {VecCase(v1, v2) : v1 \in {v \in VecWinOK(R1, C1, BackLen) : InShard(v)},
                                                        v2 \in VecWinOK(R1, C1, BackLen)}
 
